@@ -139,7 +139,7 @@ pub fn c13(rep: &mut Report, scratch: &std::path::Path, rng: &mut Rng, cases: u6
 
 /// C14: E = active frames that were given an embedding. `sizes`: target vector counts per history.
 pub fn c14(rep: &mut Report, scratch: &std::path::Path, rng: &mut Rng, sizes: &[usize], config: &str) {
-    for c in ["membership_checks", "embedding_reads", "self_queries", "checks_after_reopen", "checks_after_doctor", "updates_carrying_embedding", "deletes"] { rep.require(c); }
+    for c in ["membership_checks", "embedding_reads", "self_queries", "checks_after_reopen", "checks_after_doctor", "checks_after_crash_replay", "updates_carrying_embedding", "deletes"] { rep.require(c); }
     for (hn, &target) in sizes.iter().enumerate() {
         let dir = scratch.join(format!("m{hn}"));
         let _ = std::fs::create_dir_all(&dir);
@@ -208,8 +208,42 @@ pub fn c14(rep: &mut Report, scratch: &std::path::Path, rng: &mut Rng, sizes: &[
         if failed { continue; }
         if let Err(e) = mem.commit() { rep.violation("C14:commit-failed", e.to_string(), detail(&log)); continue; }
         let mut handle = Some(mem);
-        for stage in ["after-commit", "after-reopen", "after-doctor-vec-rebuild", "after-vacuum", "after-reopen-2"] {
+        for stage in ["after-commit", "after-crash-replay", "after-reopen", "after-doctor-vec-rebuild", "after-vacuum", "after-reopen-2"] {
             match stage {
+                "after-crash-replay" => {
+                    // acknowledged, un-committed operations (embedded puts, a plain put, a delete) and then a crash: the file
+                    // as it is on disk is reopened and Memvid::open has to replay the log next to the committed vectors
+                    let Some(m) = handle.as_mut() else { break };
+                    let mut ok = true;
+                    for j in 0..rng.usize(1, 3) {
+                        let e = next_emb(rng);
+                        let mut o = PutOptions::default();
+                        o.timestamp = Some(1_800_000_000 + j as i64);
+                        o.instant_index = false;
+                        o.auto_tag = false;
+                        o.extract_triplets = false;
+                        match m.put_with_embedding_and_options(format!("pending doc {j}").as_bytes(), e.clone(), o) {
+                            Ok(_) => { log.push(json!({"op": "put-pending", "emb": true})); frames.push((FrameStatus::Active, Some(e))); }
+                            Err(err) => { rep.violation("C14:put-failed", err.to_string(), detail(&log)); ok = false; break; }
+                        }
+                    }
+                    if !ok { break; }
+                    if rng.chance(1, 2) {
+                        let mut o = PutOptions::default();
+                        o.instant_index = false;
+                        o.auto_tag = false;
+                        o.extract_triplets = false;
+                        if m.put_bytes_with_options(b"pending plain", o).is_ok() { log.push(json!({"op": "put-pending", "emb": false})); frames.push((FrameStatus::Active, None)); }
+                    }
+                    let image = path.with_extension("crashimg");
+                    if std::fs::copy(&path, &image).is_err() { rep.inconclusive(json!({"reason": "cannot copy the file for a crash image"})); break; }
+                    handle = None; // the drop-time commit goes to the old inode and is discarded
+                    if std::fs::rename(&image, &path).is_err() { rep.inconclusive(json!({"reason": "cannot put the crash image in place"})); break; }
+                    match Memvid::open(&path) {
+                        Ok(m2) => { handle = Some(m2); rep.count("checks_after_crash_replay"); }
+                        Err(e) => { rep.violation("C14:open-failed:after-crash-replay", e.to_string(), detail(&log)); break; }
+                    }
+                }
                 "after-reopen" | "after-reopen-2" => { handle = None; match Memvid::open(&path) { Ok(m) => { handle = Some(m); rep.count("checks_after_reopen"); } Err(e) => { rep.violation(&format!("C14:open-failed:{stage}"), e.to_string(), detail(&log)); break; } } }
                 "after-doctor-vec-rebuild" => {
                     handle = None;
@@ -228,7 +262,7 @@ pub fn c14(rep: &mut Report, scratch: &std::path::Path, rng: &mut Rng, sizes: &[
             // vectors; what matters for the diagnosis is whether an index rebuild (doctor, vacuum,
             // any later commit) has happened yet, not which stage it was.
             let stage = if config != "default" && expected.len() >= 1000 {
-                if matches!(stage, "after-commit" | "after-reopen") { "before-index-rebuild" } else { "after-index-rebuild" }
+                if matches!(stage, "after-commit") { "before-index-rebuild" } else { "after-index-rebuild" }
             } else { stage };
             // (1) everything findable = exactly E
             if !expected.is_empty() {
